@@ -41,7 +41,7 @@ ASSUMPTIONS = [
 REACH = {t: ["versions_11", "op_truncate", "op_flip", "op_idsub", "op_seqsub", "op_random", "op_valid",
              "with_pending", "without_pending", "callback_accepted", "pending_completed_by_own_frame",
              "pending_invalid_command", "pending_seq_wrong_id", "fresh_command_ok", "undecodable_rejected",
-             "unknown_id_rejected"] for t in ("quick", "thorough")}
+             "unknown_id_rejected", "op_fc", "op_fc_truncate", "op_cancel_race"] for t in ("quick", "thorough")}
 SHARD_TIMEOUT = {"quick": 900, "thorough": 3600}
 
 
@@ -178,6 +178,29 @@ def run_shard(desc) -> Acc:
                     pass
             pending["task"] = None
 
+        async def cancel_race(kind: str):
+            """The caller of the pending command is cancelled and the (well-formed) response arrives before
+            the command's own clean-up has run - e.g. a frame handed over by the UART thread landing ahead
+            of the task's wake-up.  Nothing may escape the receive entry point."""
+            await ensure_pending(kind)
+            frame = encode(kind, pending["seq"], cb=False)
+            case = {"version": V, "op": "cancel_race", "frame": frame.hex(), "pending": kind, "seed": desc["seed"], "part": desc["part"]}
+            acc.case()
+            tk = pending["task"]
+            tk.cancel()
+            cbs.clear()
+            try:
+                ez.frame_received(frame)
+                acc.hit("op_cancel_race")
+            except BaseException as ex:  # noqa: BLE001
+                acc.violation("C08/raises", f"frame_received raised {ex!r} on the response to a command whose caller was just cancelled", case)
+            try:
+                await tk
+            except BaseException:  # noqa: BLE001
+                pass
+            pending["task"] = None
+            acc.nontrivial((V, "cancel_race", kind, frame))
+
         async def inject(frame: bytes, op: str, with_pending: bool, kind: str):
             case = {"version": V, "op": op, "frame": frame.hex(), "pending": kind if with_pending else None,
                     "seed": desc["seed"], "part": desc["part"]}
@@ -274,6 +297,17 @@ def run_shard(desc) -> Acc:
                 await inject(base, "valid", wp, kind)
                 for L in range(0, len(base)):
                     await inject(base[:L], "truncate", wp, kind)
+                # the same with other frame-control bytes (overflow / truncated / pending-callback bits,
+                # reserved bits): whatever they say, a frame that does not decode fully is not a frame
+                for fc in (0x82, 0x92, 0x81, 0x42 | 0x80, 0x02, 0xFF):
+                    alt = bytearray(base)
+                    alt[1] = fc
+                    await inject(bytes(alt), "fc", wp, kind)
+                    for L in sorted({len(base) - 1, len(base) - 2, len(base) - 3, max(hdr_len(V), len(base) // 2), hdr_len(V) + 1}):
+                        if hdr_len(V) <= L < len(base):
+                            await inject(bytes(alt[:L]), "fc_truncate", wp, kind)
+                if wp:
+                    await cancel_race(kind)
                 for _ in range(desc["nflip"]):
                     b = bytearray(base)
                     for _k in range(rnd.randrange(1, 4)):
